@@ -20,6 +20,7 @@ pub const FLOORS: &[&str] = &[
     "accept:label_offset", "reject:integer", "reject:other", "family:boundary", "family:names",
     "family:random", "family:multibyte", "family:machine", "names:accepted", "names:misspelling",
     "names:too_many_args", "names:too_few_args", "machine:move", "machine:goto", "machine:break",
+    "names:long_unknown_word_multibyte", "names:other_white_space",
 ];
 
 pub const ALPHABET: &[char] = &['+', '-', '#', 'x', 'o', 'b', '0', '1', '7', '9', 'a', 'f', 'g', '^', 'r', '_'];
@@ -325,6 +326,58 @@ fn names_case(seed: u64, i: u64) -> CaseOut {
                 out.class("names:too_many_args");
             } else {
                 out.class("names:too_few_args");
+            }
+        }
+    }
+    // words that are no command at all, long and with multi-byte characters at every byte offset
+    // (a diagnostic that abbreviates them must cut at a character boundary)
+    for k in 0..40u64 {
+        let pad = "a".repeat((16 + (k + i) % 16) as usize);
+        let mb = *rng.pick(&["\u{e9}", "\u{20ac}", "\u{1F34B}", "\u{e9}\u{20ac}\u{1F34B}"]);
+        let word = format!("{}{}{}", pad, mb, "z".repeat(rng.below(20) as usize));
+        let line = match k % 4 {
+            0 => word.clone(),
+            1 => format!("step {}", word),
+            2 => format!("break {} x3000", word),
+            _ => format!("{} r1 x3000", word),
+        };
+        evals += 1;
+        if check_line(&mut out, &line, i).is_some() {
+            out.class("names:long_unknown_word_multibyte");
+        }
+    }
+    // white space that is not a blank, at every position relative to the words (tokens are separated
+    // by blanks only: anything else is part of a token)
+    for base in ["move r1 7", "goto x3001", "break add x3002", "step into 2", "print r3", "registers", "break list", "si 3"] {
+        for ws in ['\t', '\r', '\u{a0}', '\u{2003}', '\u{3000}', '\u{b}', '\u{c}', '\u{85}', '\u{feff}'] {
+            let words: Vec<&str> = base.split(' ').collect();
+            for pos in 0..=words.len() {
+                for glued in [true, false] {
+                    // the character stands before word `pos` (or after the last one), glued to it or after a blank
+                    let mut line = String::new();
+                    for (wi, w) in words.iter().enumerate() {
+                        if wi > 0 {
+                            line.push(' ');
+                        }
+                        if wi == pos {
+                            line.push(ws);
+                            if !glued {
+                                line.push(' ');
+                            }
+                        }
+                        line.push_str(w);
+                    }
+                    if pos == words.len() {
+                        if !glued {
+                            line.push(' ');
+                        }
+                        line.push(ws);
+                    }
+                    evals += 1;
+                    if check_line(&mut out, &line, i).is_some() {
+                        out.class("names:other_white_space");
+                    }
+                }
             }
         }
     }
